@@ -127,6 +127,15 @@ DATA_OBJS = [
     ('o50', 'struct { int a : 7; int b : 9; int c : 17; char d; } o50 = { 1, 2, 3, 4 }'), ('o51', 'struct { long l : 40; short s; } o51 = { 5, 6 }'),
     ('o52', 'union { char c[3]; short s; } o52 = { "ab" }'), ('o53', 'long double o53'), ('o54', 'struct { char c; long double ld; } o54'),
 ]
+# a bit-field that ends inside a byte (all ones, so the unfinished byte is not zero) followed by every kind of next member, adjacent or after a gap
+_k = 60
+for _w in (1, 3, 7, 8, 9, 12, 15, 17, 31):
+    for _next in ('char n', 'short n', 'int n', 'long n', 'unsigned n : 5', 'char skip; int n', 'int : 0; unsigned n : 3', 'char n[3]', 'struct { char a; } n'):
+        _init = '{ -1, %s }' % ('.n = 5' if 'skip' in _next or ': 0' in _next else '"ab"' if '[3]' in _next else '{5}' if 'struct' in _next else '5')
+        DATA_OBJS.append(('o%d' % _k, 'struct { int b : %d; %s; } o%d = %s' % (_w, _next, _k, _init.replace('{ -1, .n', '{ .b = -1, .n'))))
+        _k += 1
+    DATA_OBJS.append(('o%d' % _k, 'struct { char pre; unsigned b : %d; char mid; unsigned c : %d; short post; } o%d = { 1, -1, 2, -1, 3 }' % (_w % 9 or 1, _w, _k)))
+    _k += 1
 
 
 def data_unit():
